@@ -64,3 +64,75 @@ Theorem C16_empty_exec_report_not_accepted : forall n d curse,
   exec_should_accept n d 0 curse <> Ok true.
 Proof. exact empty_exec_report_not_accepted. Qed.
 Print Assumptions C16_empty_exec_report_not_accepted.
+
+(* ---- the executable properties of Check/C16_check.v are the property (judge soundness) ---- *)
+Require Import Verif.Check.C16_check Verif.Proofs.JudgeSoundC16P.
+
+(* sink sched. One call: on unique oracle ids the executable clause set holds of exactly one answer, the schedule. *)
+Theorem C16_judge_sched_call_iff : forall items mult o,
+  NoDup (map fst items) ->
+  (sched_ok1 items mult o = true <-> o = schedule (sup_of items) (map fst items) mult).
+Proof. exact sched_ok1_iff. Qed.
+Print Assumptions C16_judge_sched_call_iff.
+
+(* ... hence an arbitrary answer that passes satisfies the clauses of C16_schedule_members / C16_schedule_error_iff *)
+Theorem C16_judge_sched_call_sound : forall items mult o,
+  NoDup (map fst items) -> sched_ok1 items mult o = true ->
+  let sup := sup_of items in let order := map fst items in
+  match o with
+  | None => has_err sup order = true \/ writers sup order = []
+  | Some (t, d) =>
+      has_err sup order = false /\
+      Permutation t (writers sup order) /\ NoDup t /\ StronglySorted N.lt t /\
+      (forall x, In x t <-> In x order /\ sup x = 1%N) /\
+      length d = length t /\
+      (forall k, (k < length t)%nat -> nth k d 0%Z = (mult * (Z.of_nat k + 1))%Z)
+  end.
+Proof. exact sched_ok1_sound. Qed.
+Print Assumptions C16_judge_sched_call_sound.
+
+(* the case of the sink: the same id -> answer table enumerated in two orders *)
+Theorem C16_judge_sched_model_passes : forall a b mult,
+  NoDup (map fst a) -> Permutation a b -> sched_ok (a, b, mult) (sched_model (a, b, mult)) = true.
+Proof. exact (fun a b mult => sched_model_passes (a, b, mult)). Qed.
+Print Assumptions C16_judge_sched_model_passes.
+
+Theorem C16_judge_sched_sound : forall a b mult o,
+  NoDup (map fst a) -> NoDup (map fst b) -> sched_ok (a, b, mult) o = true ->
+  fst o = schedule (sup_of a) (map fst a) mult /\ snd o = schedule (sup_of b) (map fst b) mult /\ fst o = snd o.
+Proof. exact (fun a b mult => sched_sound (a, b, mult)). Qed.
+Print Assumptions C16_judge_sched_sound.
+
+(* sink rep (Plugin.Reports of both plugins; also judged under C10 as rep_roles) *)
+Theorem C16_judge_rep_model_passes : forall plugin items empty mult,
+  NoDup (map fst items) -> rep_ok (plugin, items, empty, mult) (rep_model (plugin, items, empty, mult)) = true.
+Proof. exact (fun p it e m => rep_model_passes (p, it, e, m)). Qed.
+Print Assumptions C16_judge_rep_model_passes.
+
+(* one answer per input (oracles agree), a report carries exactly the schedule, an error only when the theorems allow *)
+Theorem C16_judge_rep_sound : forall plugin items empty mult o,
+  NoDup (map fst items) -> rep_ok (plugin, items, empty, mult) o = true ->
+  exists r, o = [r] /\
+    match r with
+    | Ok None => plugin = 0%N /\ empty = true
+    | Ok (Some s) => schedule (sup_of items) (map fst items) mult = Some s
+    | Err => (plugin = 0%N /\ empty = true) \/ schedule (sup_of items) (map fst items) mult = None
+    | _ => False
+    end.
+Proof. exact (fun p it e m => rep_sound (p, it, e, m)). Qed.
+Print Assumptions C16_judge_rep_sound.
+
+(* sink gate: the accept / transmit callbacks *)
+Theorem C16_judge_gate_model_passes : forall g, gate_ok g (gate_model g) = true.
+Proof. exact gate_model_passes. Qed.
+Print Assumptions C16_judge_gate_model_passes.
+
+Theorem C16_judge_gate_sound : forall g o, gate_ok g o = true -> o = 1%N ->
+  match g with
+  | GCommitT my cand d r => exists c, cand = Some c /\ c <> my /\ d = true /\ r = true
+  | GExecT w my cand d => w = Some true /\ exists c, cand = Some c /\ c <> my /\ d = true
+  | GCommitA d r t g s c i rmn f => commit_report_empty r t g s = false
+  | GExecA n d cr c => cr <> 0%N
+  end.
+Proof. exact gate_sound. Qed.
+Print Assumptions C16_judge_gate_sound.
